@@ -321,19 +321,19 @@ func genContents(t *rapid.T, c *BuildCase, o contentOpts) {
 					e.Src = udir + "/**"
 				case "globext":
 					// make sure at least one top-level regular file has the extension
-					u.nodes = append(u.nodes, FNode{Rel: udir + "/extra.cfg", Kind: "file", Size: 12, Seed: 7 + i, Mode: 0o644, MTime: genMTime(t, lbl+".xm")})
+					u.nodes = append(u.nodes, FNode{Rel: udir + "/Extra.cfg", Kind: "file", Size: 12, Seed: 7 + i, Mode: 0o644, MTime: genMTime(t, lbl+".xm")})
 					if rapid.Bool().Draw(t, lbl+".second") {
-						u.nodes = append(u.nodes, FNode{Rel: udir + "/other.cfg", Kind: "file", Size: 33, Seed: 8 + i, Mode: 0o600, MTime: genMTime(t, lbl+".xm2")})
+						u.nodes = append(u.nodes, FNode{Rel: udir + "/Other.cfg", Kind: "file", Size: 33, Seed: 8 + i, Mode: 0o600, MTime: genMTime(t, lbl+".xm2")})
 					}
 					e.Src = udir + "/*.cfg"
 				case "globq":
-					u.nodes = append(u.nodes, FNode{Rel: udir + "/qa", Kind: "file", Size: 5, Seed: 9 + i, Mode: 0o640, MTime: genMTime(t, lbl+".xm")})
-					u.nodes = append(u.nodes, FNode{Rel: udir + "/qb", Kind: "file", Size: 6, Seed: 10 + i, Mode: 0o604, MTime: genMTime(t, lbl+".xm2")})
-					e.Src = udir + "/q?"
+					u.nodes = append(u.nodes, FNode{Rel: udir + "/Qa", Kind: "file", Size: 5, Seed: 9 + i, Mode: 0o640, MTime: genMTime(t, lbl+".xm")})
+					u.nodes = append(u.nodes, FNode{Rel: udir + "/Qb", Kind: "file", Size: 6, Seed: 10 + i, Mode: 0o604, MTime: genMTime(t, lbl+".xm2")})
+					e.Src = udir + "/Q?"
 				case "globbrace":
-					u.nodes = append(u.nodes, FNode{Rel: udir + "/one.x", Kind: "file", Size: 5, Seed: 11 + i, Mode: 0o644, MTime: genMTime(t, lbl+".xm")})
-					u.nodes = append(u.nodes, FNode{Rel: udir + "/two.x", Kind: "file", Size: 6, Seed: 12 + i, Mode: 0o644, MTime: genMTime(t, lbl+".xm2")})
-					e.Src = udir + "/{one,two}.x"
+					u.nodes = append(u.nodes, FNode{Rel: udir + "/One.x", Kind: "file", Size: 5, Seed: 11 + i, Mode: 0o644, MTime: genMTime(t, lbl+".xm")})
+					u.nodes = append(u.nodes, FNode{Rel: udir + "/Two.x", Kind: "file", Size: 6, Seed: 12 + i, Mode: 0o644, MTime: genMTime(t, lbl+".xm2")})
+					e.Src = udir + "/{One,Two}.x"
 				}
 				c.Tree = append(c.Tree, u.nodes...)
 			}
